@@ -197,7 +197,7 @@ class Runner:
                 chunk //= 2
         # pairs that only make sense together (WH … WR, the two steps of a broadcaster)
         progress = True
-        while progress and budget > 0 and len(cur) <= 24:
+        while progress and budget > 0 and len(cur) <= 40:
             budget -= 1
             cands = [[l for k, l in enumerate(cur) if k not in (i, j)]
                      for i in range(len(cur)) for j in range(i + 1, len(cur))]
